@@ -101,6 +101,203 @@ class Decode(Part):
             ctx.nontrivial = True
 
 
+# ------------------------------------------------------------------------------------------------ layered styles, printed after one another
+def definition_of(sp, order=0):
+    """A style definition string ("not bold italic red on blue link URL") that says what the spec says; order 1 spells the same parts the other way round."""
+    words = []
+    for k, v in sorted(sp["attrs"].items()):
+        words.append(k if v else "not " + k)
+    if sp["color"]:
+        words.append(sp["color"])
+    if sp["bgcolor"]:
+        words.append("on " + sp["bgcolor"])
+    if sp["link"]:
+        words.append("link " + sp["link"])
+    if order:
+        words.reverse()
+    return " ".join(words) or "none"
+
+
+def resolve_pool(pool):
+    """The style specs of a generated pool. An entry with a 'tweak' is written *against* an earlier entry: it flips some of the attributes that entry sets
+    (switches them off where they are on and the other way round), with or without colours of its own, with or without a link."""
+    out = []
+    for i, e in enumerate(pool):
+        sp = e["spec"]
+        tw = e.get("tweak")
+        if tw and i:
+            target = out[tw["of"] % i]
+            names = sorted(target["attrs"])
+            attrs = {names[k % len(names)]: not target["attrs"][names[k % len(names)]] for k in tw["flip"]} if names else dict(sp["attrs"])
+            sp = {"attrs": attrs, "color": sp["color"] if tw["colour"] else None, "bgcolor": sp["bgcolor"] if tw["colour"] else None, "link": tw["link"] if tw["link"] is not None else sp["link"]}
+        out.append(sp)
+    return out
+
+
+class Layers(Part):
+    name = "layers"
+    rule = ("a pool of 2-4 styles (C03 style space; an entry may be a 'tweak' of an earlier one: some of that entry's attributes flipped - on->off, off->on -, with or "
+            "without own colours, with or without a link), each used either as one Style object shared by everything in the case or as a style definition string "
+            "(resolved by the console through the cached Style.parse); then a history of 2-5 steps, the first one a print: print a Text (1-24 characters, ESC-free, newlines; base style, "
+            "0-4 overlapping spans in pool styles, optionally print(style=outer)) on the case's truecolor console or, as history only, on its 256 / standard console; "
+            "print an earlier Text object again; derive a new pool style from styles that may have been written already (copy, update_link(url|None), without_color, a + b, "
+            "Style.combine / Style.chain of 2-3). Every truecolor print is decoded by a fresh AnsiDecoder: same characters per line and per character the "
+            "attributes-on, fg, bg, link of the right-biased fold of the styles covering it (outer, base, spans in the order they were added), whatever was printed "
+            "or derived before; non-trivial = a compared print after the first step has a character covered by >= 2 styles of which one was used in an earlier print")
+    budget = {"quick": (8, 900), "thorough": (16, 10000)}
+
+    def strategy(self, tier):
+        tweak = st.builds(lambda of, flip, colour, link: {"of": of, "flip": flip, "colour": colour, "link": link}, st.integers(0, 3), st.lists(st.integers(0, 12), min_size=1, max_size=3),
+                          st.booleans(), st.one_of(st.none(), st.sampled_from(GS.LINKS)))
+        entry = st.builds(lambda sp, form, tw, order: {"spec": sp, "form": form, "tweak": tw, "order": order},
+                          st.one_of(GS.style_spec(max_attrs=4), GS.style_spec(), st.sampled_from(GS.PALETTE)), st.sampled_from(["obj", "obj", "def"]), st.one_of(st.none(), tweak), st.integers(0, 1))
+        idx = st.integers(0, 7)
+        # the C03 segment alphabet, at least one character
+        text = st.text(st.one_of(st.sampled_from(GC.NARROW_ASCII + GC.PUNCT), st.sampled_from(GC.NARROW_ASCII), st.just(" "), st.sampled_from(GC.WIDE), st.sampled_from(GC.ZERO), st.just("\n"), st.sampled_from(GC.LATIN1)),
+                       min_size=1, max_size=24)
+        pr = st.builds(lambda t, base, spans, outer, system: {"op": "print", "text": t, "base": base, "spans": spans, "outer": outer, "system": system},
+                       text, st.one_of(st.none(), idx, idx, idx), st.lists(st.tuples(st.integers(0, 24), st.integers(0, 24), idx).map(list), max_size=4),
+                       st.one_of(st.none(), st.none(), st.none(), idx), st.sampled_from(["truecolor", "truecolor", "truecolor", "truecolor", "256", "standard"]))
+        derive = st.builds(lambda how, of, link: {"op": "derive", "how": how, "of": of, "link": link}, st.sampled_from(["copy", "update_link", "without_color", "add", "add", "combine", "chain"]),
+                           st.lists(idx, min_size=3, max_size=3), st.one_of(st.none(), st.sampled_from(GS.LINKS)))
+        again = st.builds(lambda k: {"op": "again", "k": k}, st.integers(0, 4))
+        return st.builds(lambda pool, steps: {"pool": pool, "steps": steps}, st.lists(entry, min_size=2, max_size=4), st.builds(lambda first, rest: [first] + rest, pr, st.lists(st.one_of(pr, pr, pr, derive, again), min_size=1, max_size=4)))
+
+    def check(self, spec, ctx):
+        from rich.console import Console
+        from rich.style import Style
+        from rich.text import Text
+        from rich.ansi import AnsiDecoder
+        from rich.color import Color
+
+        specs = resolve_pool(spec["pool"])
+        # what the application holds for each pool style: a Style object (made once) or a definition string
+        held = []
+        for e, sp in zip(spec["pool"], specs):
+            held.append(sut(GS.build_style, sp) if e["form"] == "obj" else definition_of(sp, e["order"]))
+
+        def as_object(h):
+            return h if not isinstance(h, str) else sut(Style.parse, h)
+
+        files, consoles = {}, {}
+
+        def console_of(system):
+            if system not in consoles:
+                files[system] = io.StringIO()
+                consoles[system] = sut(Console, file=files[system], color_system=system, force_terminal=True, legacy_windows=False, width=1000, _environ={})
+            return consoles[system], files[system]
+
+        con2 = Console(file=io.StringIO(), width=1000, _environ={})
+        printed = []      # (Text object, outer index, per character list of covering pool indices, plain)
+        used = set()      # pool indices that took part in an earlier print
+        later_layered = False
+
+        def state_of(layers):
+            m = GS.merge(*[specs[i] for i in layers])
+            return (frozenset(k for k, v in m["attrs"].items() if v),
+                    C03.Stream.canon(Color.parse(m["color"])) if m["color"] else SGR.DEFAULT,
+                    C03.Stream.canon(Color.parse(m["bgcolor"])) if m["bgcolor"] else SGR.DEFAULT,
+                    m["link"])
+
+        def emit(si, text_obj, outer, cover, plain, system):
+            """print on the console of `system`; compare when it is the truecolor one. Returns False after a violation."""
+            con, f = console_of(system)
+            before = len(f.getvalue())
+            if outer is None:
+                sut(con.print, text_obj, end="")
+            else:
+                sut(con.print, text_obj, style=held[outer], end="")
+            out = f.getvalue()[before:]
+            if system != "truecolor":
+                ctx.cls("history-on-" + system)
+                return True
+            want_lines = [[]]
+            for c, layers in zip(plain, cover):
+                if c == "\n":
+                    want_lines.append([])
+                else:
+                    want_lines[-1].append((c, state_of(layers), layers))
+            if not want_lines[-1] and len(want_lines) > 1:
+                want_lines.pop()
+            if not out:
+                want_lines = []
+            lines = list(sut(lambda: list(AnsiDecoder().decode(out))))
+            if len(lines) != len(want_lines):
+                ctx.violation("decode", "C19/layers/line-count", "step %d: decoded %d lines, printed %d; stream %r" % (si, len(lines), len(want_lines), out[:300]))
+                return False
+            for li, (line, want) in enumerate(zip(lines, want_lines)):
+                got = []
+                for seg in line.render(con2):
+                    for c in seg.text:
+                        got.append((c, canon_style(seg.style)))
+                if [c for c, _ in got] != [x[0] for x in want]:
+                    ctx.violation("decode", "C19/layers/characters", "step %d line %d decodes to %r, printed %r" % (si, li, "".join(c for c, _ in got), "".join(x[0] for x in want)))
+                    return False
+                for (c, g), (_, w, layers) in zip(got, want):
+                    if g != w:
+                        which = [n for n, x, y in zip(("attrs", "fg", "bg", "link"), g, w) if x != y]
+                        ctx.violation("decode", "C19/layers/" + "+".join(which), "step %d line %d character %r decodes to %r, the styles over it (%s) fold to %r; stream %r"
+                                      % (si, li, c, g, " < ".join("'%s'" % definition_of(specs[i]) for i in layers), w, out[:300]))
+                        return False
+            return True
+
+        for si, step in enumerate(spec["steps"]):
+            n = len(held)
+            if step["op"] == "derive":
+                src = [k % n for k in step["of"]]
+                how = step["how"]
+                a = as_object(held[src[0]])
+                if how == "copy":
+                    new, nsp = sut(a.copy), dict(specs[src[0]])
+                elif how == "update_link":
+                    new, nsp = sut(a.update_link, step["link"]), dict(specs[src[0]], link=step["link"])
+                elif how == "without_color":
+                    new, nsp = sut(lambda: a.without_color), dict(specs[src[0]], color=None, bgcolor=None)
+                elif how == "add":
+                    new, nsp = sut(lambda: a + as_object(held[src[1]])), GS.merge(specs[src[0]], specs[src[1]])
+                else:
+                    members = src if step["link"] is None else src[:2]
+                    objs = [as_object(held[k]) for k in members]
+                    new = sut(Style.combine, objs) if how == "combine" else sut(Style.chain, *objs)
+                    nsp = GS.merge(*[specs[k] for k in members])
+                held.append(new)
+                specs.append(nsp)
+                ctx.cls("derived-" + how)
+                continue
+            if step["op"] == "again":
+                if not printed:
+                    continue
+                text_obj, outer, cover, plain = printed[step["k"] % len(printed)]
+                ctx.cls("same-text-printed-again")
+                if si and any(len(l) >= 2 for l, c in zip(cover, plain) if c != "\n"):
+                    later_layered = True
+                if not emit(si, text_obj, outer, cover, plain, "truecolor"):
+                    return
+                continue
+            plain = step["text"]
+            base = None if step["base"] is None else step["base"] % n
+            outer = None if step["outer"] is None else step["outer"] % n
+            text_obj = sut(Text, plain, style=held[base], end="") if base is not None else sut(Text, plain, end="")
+            cover = [([outer] if outer is not None else []) + ([base] if base is not None else []) for _ in plain]
+            for a, b, k in step["spans"]:
+                lo, hi = sorted((a % (len(plain) + 1), b % (len(plain) + 1)))
+                if lo == hi:
+                    continue
+                sut(text_obj.stylize, held[k % n], lo, hi)
+                for p in range(lo, hi):
+                    cover[p].append(k % n)
+            if si and step["system"] == "truecolor" and any(len(l) >= 2 and used & set(l) for l, c in zip(cover, plain) if c != "\n"):
+                later_layered = True
+            if not emit(si, text_obj, outer, cover, plain, step["system"]):
+                return
+            if step["system"] == "truecolor":
+                printed.append((text_obj, outer, cover, plain))
+            for l, c in zip(cover, plain):
+                used.update(l)
+        if later_layered:
+            ctx.nontrivial = True
+
+
 # ------------------------------------------------------------------------------------------------ FileProxy
 def encode_run(text, sp, variant):
     """Independent encoder: SGR / OSC-8 coded run. variant picks among equivalent spellings."""
@@ -421,4 +618,4 @@ class Proxy(Part):
             ctx.cls("soft-wrap-console")
 
 
-PARTS = [Decode(), Proxy()]
+PARTS = [Decode(), Layers(), Proxy()]
